@@ -118,6 +118,7 @@ def run(chk):
     texts = [t for _, t in docs]
     mc, ans = with_oracle(chk, texts)
     impl = chk.run_impl([("clparse", [t]) for t in texts])
+    impl_docs = list(impl)
     model = chk.run_model(mc)
     chk.compare("model-changelogs", mc, impl, model)
     for (es, t), i in zip(docs, impl):
@@ -163,6 +164,20 @@ def run(chk):
         if n < headers(t) or i != "ok " + show_list(full[:n]):
             chk.violate({"kind": "property", "case": lib.show_case(("clparse", [t])), "impl": i[:1500], "header_lines": headers(t),
                          "explanation": "a truncated changelog was parsed into a silently shortened (or altered) list instead of all entries or an error"})
+    # a parse that fails (input cut inside an entry), then a good changelog in the same process: the second result is
+    # that of the good changelog alone - nothing of the failed parse is left behind
+    good = dict(zip([t for _, t in docs], impl_docs))
+    hc, hw = [], []
+    for (es, t) in rng.sample(docs, min(len(docs), chk.n(300, 6000))):
+        bad_t = t[:rng.randrange(1, max(2, len(t)))]
+        other = rng.choice(docs)[1]
+        hc.append(("clparse2", [bad_t, other])); hw.append(good[other])
+    hi = chk.run_impl(hc)
+    chk.record("failed-parse-then-good-one", hc, hi)
+    for c, i, w in zip(hc, hi, hw):
+        if i != w:
+            chk.violate({"kind": "property", "case": lib.show_case(c), "impl": i[:1200], "alone": w[:1200],
+                         "explanation": "a changelog parsed after another (failed or truncated) parse in the same process is not returned as it is when parsed alone"})
     chk.extra["truncation_prefixes"] = len(cut)
     # 3. malformed header / trailer / date
     mut = []
